@@ -285,3 +285,152 @@ pub fn replay_session(
         text,
     })
 }
+
+// ---------------------------------------------------------------------------
+// Runs in which logical thread T0 is the PROCESS'S MAIN THREAD.  The main
+// thread's TLS outlives a run, so each such run gets a process of its own.
+
+pub const MAIN_SALT: u64 = 0x4D41_494E_5448_5244; // "MAINTHRD"
+
+pub const FRESH_SALT: u64 = 0x4652_4553_4850_5243; // "FRESHPRC"
+
+/// Plan of a run that gets a process of its own: `main` = T0 is the process's
+/// main thread; otherwise an ordinary plan whose only difference from the
+/// in-process batch is that no earlier run has touched the process.
+pub fn main_plan(seed: u64, idx: u64, thorough: bool, main: bool) -> Plan {
+    if !main {
+        let mut g = gen_plan(run_seed(seed ^ FRESH_SALT, idx), idx, thorough);
+        g.plan.note = format!("fresh-process run: {}", g.plan.note);
+        return g.plan;
+    }
+    let mut g = gen_plan(run_seed(seed ^ MAIN_SALT, idx), idx, thorough);
+    g.plan.root_is_main = true;
+    g.plan.root_probe_early = false;
+    g.plan.note = format!("main-thread run: {}", g.plan.note);
+    g.plan
+}
+
+/// One run with T0 = main thread, in THIS process (call once per process).
+pub fn mainrun(seed: u64, idx: u64, thorough: bool, out: &str, main: bool) -> Result<i32, String> {
+    let plan = main_plan(seed, idx, thorough, main);
+    let mut stats = Stats::new();
+    let mut gl = None;
+    let po = run_plan(&plan, &mut gl, &mut stats, None)?;
+    println!(
+        "MAINRUN idx={} events={} loghash={:016x} nontrivial={} leak={} inherit={} stale={} ops={} reads={} faults={}",
+        idx,
+        po.res.events.len(),
+        po.log_hash,
+        po.judged.nontrivial as u8,
+        stats.disc_leak_ops + stats.disc_leak_reads,
+        stats.disc_inherit_ops + stats.disc_inherit_reads,
+        stats.disc_stale_ops + stats.disc_stale_reads,
+        stats.l3_compared,
+        stats.l1_checked,
+        stats.faults.iter().sum::<u64>()
+    );
+    if let Some(v) = po.judged.violations.first() {
+        fs::create_dir_all(out).map_err(|e| e.to_string())?;
+        let f = Path::new(out).join(format!("{}viol-{}.session", if main { "main" } else { "fresh" }, idx));
+        fs::write(&f, Session::single(plan.clone()).to_text()).map_err(|e| e.to_string())?;
+        println!("SIGNATURE {}", v.signature());
+        println!("DETAIL {}", v.detail.replace('\n', " "));
+        println!("FILE {}", f.to_string_lossy());
+        return Ok(1);
+    }
+    Ok(0)
+}
+
+/// Spawns one `sim mainrun` process per index of this shard.
+pub fn mainshard(a: ShardArgs, main: bool) -> Result<i32, String> {
+    let exe = std::env::current_exe().map_err(|e| e.to_string())?;
+    let t0 = Instant::now();
+    let out = Path::new(&a.out);
+    fs::create_dir_all(out).map_err(|e| e.to_string())?;
+    let mut runs = 0u64;
+    let mut sums: std::collections::BTreeMap<String, u64> = Default::default();
+    let mut hashes: BTreeSetU64 = Default::default();
+    let mut viol: Option<(u64, String, String, String)> = None;
+    let mut idx = a.from + ((a.offset + a.stride - (a.from % a.stride)) % a.stride);
+    while idx < a.to {
+        let mut cmd = std::process::Command::new(&exe);
+        cmd.arg(if main { "mainrun" } else { "freshrun" })
+            .arg("--seed")
+            .arg(a.seed.to_string())
+            .arg("--idx")
+            .arg(idx.to_string())
+            .arg("--out")
+            .arg(&a.out);
+        if a.thorough {
+            cmd.arg("--thorough");
+        }
+        let o = cmd.output().map_err(|e| format!("spawn mainrun: {}", e))?;
+        let so = String::from_utf8_lossy(&o.stdout).to_string();
+        let code = o.status.code();
+        if code != Some(0) && code != Some(1) {
+            return Err(format!(
+                "mainrun idx {} ended with status {:?}: {}{}",
+                idx,
+                code,
+                so,
+                String::from_utf8_lossy(&o.stderr)
+            ));
+        }
+        runs += 1;
+        let mut sig = String::new();
+        let mut detail = String::new();
+        let mut file = String::new();
+        for l in so.lines() {
+            if let Some(rest) = l.strip_prefix("MAINRUN ") {
+                for kv in rest.split_whitespace() {
+                    if let Some((k, v)) = kv.split_once('=') {
+                        if k == "loghash" {
+                            if let Ok(h) = u64::from_str_radix(v, 16) {
+                                hashes.insert(h);
+                            }
+                        } else if k != "idx" {
+                            *sums.entry(k.to_string()).or_insert(0) += v.parse::<u64>().unwrap_or(0);
+                        }
+                    }
+                }
+            } else if let Some(r) = l.strip_prefix("SIGNATURE ") {
+                sig = r.to_string();
+            } else if let Some(r) = l.strip_prefix("DETAIL ") {
+                detail = r.to_string();
+            } else if let Some(r) = l.strip_prefix("FILE ") {
+                file = r.to_string();
+            }
+        }
+        if code == Some(1) {
+            viol = Some((idx, sig, detail, file));
+            break;
+        }
+        idx += a.stride;
+    }
+    let mut o = Obj::new()
+        .num("shard", a.offset)
+        .num("runs", runs)
+        .num("distinct_loghashes", hashes.len())
+        .num("wall_s", format!("{:.3}", t0.elapsed().as_secs_f64()));
+    for (k, v) in &sums {
+        o = o.num(k, *v);
+    }
+    let code = if let Some((idx, sig, detail, file)) = viol {
+        o = o
+            .num("violation_idx", idx)
+            .str("violation_signature", &sig)
+            .str("violation_detail", &detail)
+            .str("violation_file", &file);
+        1
+    } else {
+        0
+    };
+    fs::write(
+        out.join(format!("{}shard-{:02}.json", if main { "main" } else { "fresh" }, a.offset)),
+        o.build(),
+    )
+        .map_err(|e| e.to_string())?;
+    Ok(code)
+}
+
+type BTreeSetU64 = std::collections::BTreeSet<u64>;
